@@ -3060,6 +3060,12 @@ fn case_c16(seed: u64, idx: usize, cache: &TableCache, out: &mut String, st: &mu
         }
         Err(_) => out.push_str("expect json error\n"),
     }
+    // the text layer: the compact and the pretty text, judged by the verified parser
+    if let (Ok(t1), Ok(t2)) = (serde_json::to_string(&modes), serde_json::to_string_pretty(&modes)) {
+        let _ = writeln!(out, "jtext{}\nexpect jtext done", proto::cps(&t1));
+        let _ = writeln!(out, "jtext{}\nexpect jtext done", proto::cps(&t2));
+        st.count("json_texts_parsed_by_the_verified_parser", 2);
+    }
     // Deserialize: the hand-built README-layout tree, then mutated trees
     let mut tree = jsonser::tree_of(&spec);
     for k in 0..4 {
@@ -3081,6 +3087,19 @@ fn case_c16(seed: u64, idx: usize, cache: &TableCache, out: &mut String, st: &mu
                 st.count("deserialize_err", 1);
                 out.push_str("expect jde err\n");
             }
+        }
+        // the same tree as text, read with `from_str` (model: verified parser, then `fromJsonModes`)
+        if let Ok(text) = if k % 2 == 0 { serde_json::to_string(&tree) } else { serde_json::to_string_pretty(&tree) } {
+            let _ = writeln!(out, "jdetext{}", proto::cps(&text));
+            match serde_json::from_str::<Vec<scnr::ScannerMode>>(&text) {
+                Ok(ms) => {
+                    let mut t2 = String::new();
+                    jsonser::ser_value(&serde_json::to_value(&ms).unwrap(), &mut t2);
+                    let _ = writeln!(out, "expect jde{}", t2);
+                }
+                Err(_) => out.push_str("expect jde err\n"),
+            }
+            st.count("json_texts_read_with_from_str", 1);
         }
     }
     // implementation-only: text round trip and behaviour of the rebuilt scanner
@@ -3137,12 +3156,14 @@ fn case_c16(seed: u64, idx: usize, cache: &TableCache, out: &mut String, st: &mu
     let mut tm = String::new();
     jsonser::ser_value(&serde_json::to_value(m).unwrap(), &mut tm);
     let _ = writeln!(out, "expect json{}", tm);
+    let _ = writeln!(out, "jtext{}\nexpect jtext done", proto::cps(&serde_json::to_string(&m).unwrap()));
     let back = serde_json::from_str::<scnr::Match>(&serde_json::to_string(&m).unwrap());
     let _ = writeln!(out, "{}\nexpect oracle", if matches!(&back, Ok(b) if *b == m) { "oracle ok".to_string() } else { format!("oracle FAIL Match {:?} does not round-trip: {:?}", m, back).replace('\n', " ") });
     let pos = scnr::Position::new(1 + r.below(50), 1 + r.below(80));
     let mut tp = String::new();
     jsonser::ser_value(&serde_json::to_value(pos).unwrap(), &mut tp);
     let _ = writeln!(out, "jposition {} {}\nexpect json{}", pos.line, pos.column, tp);
+    let _ = writeln!(out, "jtext{}\nexpect jtext done", proto::cps(&serde_json::to_string_pretty(&pos).unwrap()));
     // MatchExt through the iterator API
     if let Ok(sc) = ScannerBuilder::new().add_scanner_modes(&modes).build_uncached() {
         use scnr::MatchExtIterator;
